@@ -155,6 +155,10 @@ def hansenlaw_transform(image, dr=1, direction='inverse', hold_order=0,
     lam = np.array([0.0, -2.1, -6.2, -22.4, -92.5, -414.5, -1889.4, -8990.9,
                     -47391.1])
 
+    if direction not in ('forward', 'inverse'):
+        raise ValueError('Wrong direction "{}" (must be "forward" or '
+                         '"inverse").'.format(direction))
+
     image = np.atleast_2d(image)   # 2D input image
     aim = np.empty_like(image)  # Abel transform array
     rows, cols = image.shape
